@@ -179,11 +179,18 @@ func runC09(c c09Case) (res c09Result, fail *verifkit.Failure) {
 			_, _ = ls.Get(context.Background(), k)
 			return s.policy.misses.Value() == before
 		case "hybrid":
+			// the question is whether the policy keeps the key in the memory tier: a value that
+			// had to be fetched back from the secondary tier counts as a miss here
+			_, idx := s.index(k)
+			sh := s.shards[idx]
+			tk := sh.mu.RLock()
+			_, inMem := sh.hashmap[k]
+			sh.mu.RUnlock(tk)
 			_, ok, _ := s.GetWithSecodary(k)
 			if !ok {
 				s.Set(k, k, c09Cost(c, k), 0)
 			}
-			return ok
+			return ok && inMem
 		default:
 			_, ok := s.Get(k)
 			if !ok {
@@ -274,10 +281,6 @@ func runC09(c c09Case) (res c09Result, fail *verifkit.Failure) {
 			sh.mu.RUnlock(tk)
 			if ok {
 				resident++
-			} else if c.Kind == "hybrid" {
-				if _, _, _, ok, _ := opts.SecondaryCache.Get(k); ok {
-					resident++
-				}
 			}
 		}
 		res.hotResident = float64(resident) / float64(len(hot))
